@@ -454,14 +454,14 @@ def run(F, rep):
     import core
     import c08
     if not getattr(rep, 'nested', False):
-        c08.run(F, core.Borrowed(rep, only={'C08.M1', 'C08.M3'}))
+        core.borrow(F, rep, c08, only={'C08.M1', 'C08.M3'})
     # ... and with C09: the units the analyser scales from are those linkUnits() left on the variables; linkUnits() recognises stale units by their owning model,
     # so units removed from a model must lose their parent (every erase/clear of a child container clears the parent of what it removes)
     import c09
     if not getattr(rep, 'nested', False):
-        c09.run(F, core.Borrowed(rep, only={'C09.P3', 'C09.P4'}))
+        core.borrow(F, rep, c09, only={'C09.P3', 'C09.P4'})
     # ... and with C17: the helper functions the generated equations call (sec, csc, ..., acsch) are defined in the generated code exactly when the model uses them;
     # a helper emitted under the flag of another one leaves a call to an undefined function in the code
     import c17
     if not getattr(rep, 'nested', False):
-        c17.run(F, core.Borrowed(rep, only={'C17.N1', 'C17.N2', 'C17.N3'}))
+        core.borrow(F, rep, c17, only={'C17.N1', 'C17.N2', 'C17.N3'})
